@@ -307,11 +307,13 @@ class ParseNeighbor(Section):
     def __init__(self, parser: Parser, scope: Scope, error: Error) -> None:
         Section.__init__(self, parser, scope, error)
         self._neighbors: list[bytes] = []
+        self._parsed: list[tuple[Neighbor, Any]] = []  # neighbors waiting for commit()
         self.neighbors: dict[str, Neighbor] = {}
 
     def clear(self) -> None:
         self._neighbors = []
         self.neighbors = {}
+        self._parsed = []
 
     def pre(self) -> bool:
         return self.parse(self.name, 'peer-address')
@@ -535,14 +537,29 @@ class ParseNeighbor(Section):
             # remove_self may well have side effects on route
             neighbor.routes.append(neighbor.resolve_self(route))
 
-    def _init_neighbor(self, neighbor: Neighbor, local: dict[str, Any]) -> None:
+    def commit(self) -> None:
+        """Give the parsed neighbors their RIB and routes.
+
+        Called once the whole configuration has parsed: the RIB is shared, by name, with the
+        running neighbor, so touching it while parsing would change what is announced even when
+        the reload is later refused.
+        """
+        for neighbor, only_family in self._parsed:
+            neighbor.make_rib()
+            if only_family is not None:
+                neighbor.rib.outgoing.families = {only_family}
+            families = neighbor.families()
+            for route in neighbor.routes:
+                # remove_self may well have side effects on route
+                route = neighbor.resolve_self(route)
+                if route.nlri.family().afi_safi() in families:
+                    # This add the family to neighbor.families()
+                    neighbor.rib.outgoing.add_to_rib_watchdog(route)
+        self._parsed = []
+
+    def _init_neighbor(self, neighbor: Neighbor, local: dict[str, Any], only_family: Any = None) -> None:
         families = neighbor.families()
-        for route in neighbor.routes:
-            # remove_self may well have side effects on route
-            route = neighbor.resolve_self(route)
-            if route.nlri.family().afi_safi() in families:
-                # This add the family to neighbor.families()
-                neighbor.rib.outgoing.add_to_rib_watchdog(route)
+        self._parsed.append((neighbor, only_family))
 
         for message in local.get('operational', {}).get('routes', []):
             if message.family().afi_safi() in families:
@@ -627,11 +644,8 @@ class ParseNeighbor(Section):
         if neighbor.capability.multi_session.is_enabled() and len(neighbor.families()) > 1:
             for family in neighbor.families():
                 m_neighbor = deepcopy(neighbor)
-                m_neighbor.make_rib()
-                m_neighbor.rib.outgoing.families = {family}
-                self._init_neighbor(m_neighbor, local)
+                self._init_neighbor(m_neighbor, local, family)
         else:
-            neighbor.make_rib()
             self._init_neighbor(neighbor, local)
 
         local.clear()
